@@ -32,7 +32,7 @@ inductive Sess where
   | asyncreq (s : Conc.State AsyncReq.proto)
   | spsc (K : Nat) (s : Conc.State (Spsc.proto K))
   | mpmc (K : Nat) (s : Conc.State (Mpmc.proto K))
-  | chaselev (C : Nat) (s : Conc.State (ChaseLev.proto C))
+  | chaselev (C : Nat) (sb : Nat) (s : Conc.State (ChaseLev.proto C))
   | rwlock (s : Conc.State RWLock.proto)
   | threadid (s : Conc.State ThreadId.proto)
   | arena (B : Nat) (s : Conc.State (Arena.proto B))
@@ -439,7 +439,8 @@ def traceBegin (args : List String) : Sess × String :=
     | _ => (.failed, "bad-params")
   | "chaselev" :: rest =>
     match nats rest with
-    | some [C] => (.chaselev C (ChaseLev.init C), "ok")
+    | some [C] => (.chaselev C 4 (ChaseLev.init C), "ok")
+    | some [C, sb] => (.chaselev C sb (ChaseLev.init C), "ok")
     | _ => (.failed, "bad-params")
   | "mpmc" :: rest =>
     match nats rest with
@@ -479,9 +480,9 @@ def traceLine (sess : Sess) (toks : List String) : Sess × String :=
     match Trace.acceptLine RWLock.binding s toks with
     | .ok s' => (.rwlock s', "ok")
     | .error e => (.failed, "MISMATCH " ++ e)
-  | .chaselev C s =>
-    match Trace.acceptLine (ChaseLev.binding C) s toks with
-    | .ok s' => (.chaselev C s', "ok")
+  | .chaselev C sb s =>
+    match Trace.acceptLine (ChaseLev.binding C sb) s toks with
+    | .ok s' => (.chaselev C sb s', "ok")
     | .error e => (.failed, "MISMATCH " ++ e)
   | .mpmc K s =>
     match Trace.acceptLine (Mpmc.binding K) s toks with
